@@ -627,6 +627,8 @@ def rule9_init(ctx, fl):
 def run(ctx):
     for fl in flavours(ctx):
         ctx.unit = fl
+        ctx.doc('C02.11', 'native API forwarding: each public entry point of this property reaches the implementation of the same name with its parameters in order and returns its result (sibling slips such as trylock -> lock, signal -> broadcast, swapped arguments)')
+        lib.native_forwarding(ctx, 'C02.11', fl, lambda n: n in ('myth_yield', 'myth_yield_ex', 'myth_sched_yield', 'myth_steal'), floor=3)
         rule9_init(ctx, fl)
         rule10_wsapi(ctx, fl)
         stops = lib.SPIN_STOPS
